@@ -53,17 +53,23 @@ func zzC20_writer() {
 		opts = append(opts, message.Option{ID: message.ContentFormat, Value: []byte{0}})
 	}
 	resp := pool.NewMessage(context.Background())
-	resp.SetCode(codes.Empty)
 	w := New(resp, &zzClient{}, opts...)
 	code := symU16("code")
 	symAssume(code <= 255)
-	err := w.SetResponse(codes.Code(code), message.TextPlain, nil)
+	// the handler may pass response options along
+	var ropts []message.Option
+	if symChoose("response-options", 2) == 1 {
+		ropts = []message.Option{{ID: message.ETag, Value: []byte{0xca, 0xfe}}, {ID: message.MaxAge, Value: []byte{60}}}
+		symCover("with-response-options")
+	}
+	err := w.SetResponse(codes.Code(code), message.TextPlain, nil, ropts...)
 	symObserve("refused", err != nil)
 	symObserve("respcode", uint16(w.Message().Code()))
 	if present && zzC20w_rfc(code, v) {
 		symCover("suppressed")
 		symAssert(err != nil, "writer refuses a response of a suppressed class")
 		symAssert(w.Message().Code() == codes.Empty, "refused response leaves the message unmodified")
+		symAssert(!w.Message().IsModified() && len(w.Message().Options()) == 0, "a refused response leaves nothing behind that would make the transport send it")
 	} else {
 		symCover("wanted")
 		symAssert(err == nil, "writer accepts a response that was not suppressed")
@@ -71,7 +77,7 @@ func zzC20_writer() {
 		// the handler tries another code afterwards: a refusal changes nothing of the response already accepted
 		code2 := symU16("code2")
 		symAssume(code2 <= 255)
-		err2 := w.SetResponse(codes.Code(code2), message.TextPlain, nil)
+		err2 := w.SetResponse(codes.Code(code2), message.TextPlain, nil, ropts...)
 		if present && zzC20w_rfc(code2, v) {
 			symCover("second-refused")
 			symAssert(err2 != nil, "a later response of a suppressed class is refused")
